@@ -4,7 +4,8 @@
 PROPERTY_MODULES = {
     "C16": ["selection", "choicemap", "core_gfi", "combinators"],
     "C08": ["combinators", "pjax_vmap"],
-    "C14": ["seed", "pjax_vmap"],
+    "C14": ["seed", "pjax_vmap", "state"],
+    "C19": ["state"],
     "C06": ["seed"],
     "C07": ["seed"],
     "C01": ["core_gfi", "combinators", "lemmas", "choicemap"],
